@@ -144,6 +144,22 @@ CLAIMED = {
               "labelled with the dataset's coordinates, none or foreign labels, is validated by the TLA+ trace specification "
               "(coordinate set, values, attributes, name) and its values against the geometric definition."),
         ref="4 C19, 3.9", technique="TLA+ formula (Coords) + TLC trace validation of real results"),
+    "C18": dict(
+        text=("The session specification (spec/Xgcm.tla) states that every call except set_metrics leaves the store of "
+              "argument objects and the grid's settings unchanged and that an answer is a function of the call and the "
+              "registry (TLC: action property Pure, invariant HistoryFree over all histories of <= 4 calls); sessions of real "
+              "calls (all ordered pairs of a 27-call catalogue, sampled triples) on ONE set of argument objects are logged "
+              "with sha1 digests of every argument object, of the grids' settings and of the result, and a stateful TLA+ trace "
+              "specification carries the store across the records of a session: nothing changes between or during calls and "
+              "each result equals the call's result as first call on fresh objects, whether it returns or raises."),
+        ref="4 C18", technique="TLA+ session state machine (Xgcm) model-checked with TLC + stateful TLC trace validation of real call sessions"),
+    "C20": dict(
+        text=("The classes of ill-posed requests are TLA+ predicates on the abstract call and grid written from the property "
+              "text (spec/Errors.tla); valid calls of C01's corpus are edited once per class, transform requests and grid-ufunc "
+              "calls (C11's generator and specification) cover the remaining classes; the TLA+ trace specification classifies "
+              "every record itself and rejects any ill-posed request that came back as an array; per-class counts are "
+              "reported and a class that was never generated is flagged as vacuous."),
+        ref="4 C20, 3.9", technique="TLA+ predicates (Errors) + TLC trace validation of edited real calls"),
 }
 
 PENDING_REASON = "check not built yet in this session (planned; see DESIGN.md section 9 build order)"
